@@ -16,12 +16,18 @@ pub static mut NDEALLOC: usize = 0;
 
 /// A-cut: paths that need the global allocator are outside the harness's bound.
 pub unsafe fn alloc_cut(_l: Layout) -> *mut u8 {
+    if FORBID_ALLOC {
+        assert!(false, "[C06,C11,C18] a request that must be served from the current chunk went to the global allocator");
+    }
     kani::assume(false);
     ptr::null_mut()
 }
 
 /// A-null: the global allocator refuses everything; requests are logged.
 pub unsafe fn alloc_null(l: Layout) -> *mut u8 {
+    if FORBID_ALLOC {
+        assert!(false, "[C06,C11,C18] a request that must be served from the current chunk went to the global allocator");
+    }
     if NLOG < LOGN {
         LOG[NLOG] = (l.size(), l.align());
     }
@@ -441,4 +447,30 @@ pub fn cell_set_monitor<T>(c: &Cell<T>, v: T) {
         }
     }
     drop(c.replace(v));
+}
+
+// ---------------------------------------------------------------------------
+// Drop ledger (DESIGN §3.3): values with identity whose destructor counts.
+// ---------------------------------------------------------------------------
+pub const NIDS: usize = 8;
+pub static mut DROPS: [u8; NIDS] = [0; NIDS];
+
+#[derive(Debug)]
+pub struct D(pub u8);
+impl Drop for D {
+    fn drop(&mut self) {
+        unsafe {
+            if (self.0 as usize) < NIDS {
+                DROPS[self.0 as usize] += 1;
+            }
+        }
+    }
+}
+pub unsafe fn drops_reset() {
+    DROPS = [0; NIDS];
+}
+
+/// Concrete small chunk in a local backing object: `usable` bytes, finger at `off`.
+pub unsafe fn small_chunk<const M: usize>(base: *mut u8, usable: usize, off: usize) -> Chunk {
+    place_chunk::<M>(base, usable, 0, off, 16, empty_footer(), true)
 }
